@@ -72,9 +72,13 @@ def run(tier):
         pairs.append((enc.parse_text(a), enc.parse_text(b)))
         srcs.append('seen_rules.ja')
     from depccg.grammar import ja as jamod
-    roots = [enc.enc_cat(c) for c in jamod._possible_root_categories]
-    for a in roots[:6]:
-        for b in roots[:6]:
+    roots = [enc.parse_text(t) for t in inventory.JA_ROOTS_SPEC]
+    # saturated clauses in every form x fin combination: most are possible roots, some are not
+    others = [enc.parse_text('S[mod=nm,form=%s,fin=%s]' % (f, x)) for f in ('attr', 'hyp', 'r', 's', 'base', 'neg') for x in ('f', 't')]
+    others = [c for c in others if c not in roots] + [enc.parse_text('NP[case=ga,mod=nm,fin=f]'), enc.parse_text('S[mod=adn,form=base,fin=f]')]
+    pool = roots + others
+    for a in pool:
+        for b in pool:
             pairs.append((a, b))
             srcs.append('roots')
     # shared part b = a functor of 3-5 atoms, the two occurrences differing in one atom's feature (any position) or in nothing
